@@ -314,7 +314,7 @@ def check(case):
         fails.append(Failure('flag', 'converged=%r but x=%r' % (conv, x)))
     # derivative of the root with respect to the parameters
     did_grad = False
-    if (not fails and sign_change and not ambiguous and not math.isnan(x) and fam in ('cubic', 'exp', 'power', 'tanh', 'poly3')
+    if (not fails and (sign_change or end_root) and not ambiguous and not math.isnan(x) and fam in ('cubic', 'exp', 'power', 'tanh', 'poly3')
             and case['max_iters'] >= case['ample']):
         fx, fth = dfdx_dfdth(fam, x, case['theta'])
         if fx is not None and abs(fx) > 1e-6 * max(abs(v) for v in fth + [1e-300]) / max(hi - lo, 1e-300) * 1e-6 and fx != 0:
